@@ -16,7 +16,7 @@ def violation(job, obs):
     if obs.get("harness_error"):
         return None
     opt_in = job["overwrite"] is True
-    exists = job["dst"] in ("existing", "same")
+    exists = job["dst"] in ("existing", "same", "empty", "symlink")
     if exists and not opt_in:
         if obs["exc"] != "FileExistsError":
             return f"destination exists and overwriting was not requested, but the call ended with {obs['exc']!r}"
@@ -34,7 +34,7 @@ def violation(job, obs):
 
 
 def run(ck: vlib.Check):
-    ck.rule = ("every file-writing entry point x destination {absent, existing file, same path as the source} x "
+    ck.rule = ("every file-writing entry point x destination {absent, existing file, existing EMPTY file, symlink to a file, same path as the source} x "
                "overwrite flag {default, False, True}, real files and the real StormLib, file hashes before/after; "
                "plus, for the refusing cases, every fault point before the guard. Exhaustive over this finite grid. "
                "Distinct = distinct (entry point, destination state, flag).")
@@ -49,7 +49,7 @@ def run(ck: vlib.Check):
         props_ok = built and ck.check_props("props/C15.v")
     jobs = []
     for ep in EPS:
-        for dst in ("absent", "existing", "same"):
+        for dst in ("absent", "existing", "empty", "symlink", "same"):
             if dst == "same" and ep in (0,):
                 continue
             for ow in ("default", False, True):
@@ -71,7 +71,7 @@ def run(ck: vlib.Check):
                          {"kind": "overwrite", "job": j, "observed": obs}, True)
             continue
         if drv_ok and j["dst"] != "same":
-            m = c16.model_runs(j["ep"], j["overwrite"] is True, j["ns"], j["na"], dst=(j["dst"] == "existing")).get(())
+            m = c16.model_runs(j["ep"], j["overwrite"] is True, j["ns"], j["na"], dst=(j["dst"] in ("existing", "empty", "symlink"))).get(())
             p = c16.project(obs)
             if m != p:
                 mism += 1
